@@ -65,7 +65,15 @@ impl<'a> Cigar<'a> {
             if src.is_empty() {
                 None
             } else {
-                Some(parse_op(&mut src))
+                let result = parse_op(&mut src);
+
+                // An invalid operation is not consumed and cannot be skipped, i.e., it ends the
+                // iteration.
+                if result.is_err() {
+                    src = &[];
+                }
+
+                Some(result)
             }
         })
     }
